@@ -528,6 +528,7 @@ class FileScanHelper:
                 fix_mode=True,
                 temp_output=source_file,
                 fix_token_map=None,
+                constraint_id_list=fix_list,
             )
             report_context = self.__plugins.starting_new_file(
                 next_file_name, constraint_id_list=collect_list
